@@ -556,7 +556,9 @@ Definition nregs : nat := 6.
 Definition reg_ok (z : Z) : bool := (0 <=? z) && (z <? Z.of_nat nregs).
 
 (* register lists of the composites: n entries, packed base 8 *)
-Definition unpack (n packed : Z) : list Z := map (fun i => (packed / 8 ^ Z.of_nat i) mod 8) (seq 0 (Z.to_nat n)).
+(* (n is clamped: extraction evaluates this eagerly for every step, whatever its scalars) *)
+Definition unpack (n packed : Z) : list Z :=
+  map (fun i => (packed / 8 ^ Z.of_nat i) mod 8) (seq 0 (Z.to_nat (Z.max 0 (Z.min n 5)))).
 Definition list_ok (d n packed : Z) : bool :=
   (0 <=? packed) && forallb (fun r => (r <? Z.of_nat 6) && negb (r =? d)) (unpack n packed).
 
